@@ -773,6 +773,12 @@ func (m *Model) RuntimeCycle(c Consumer, lp []LeafParam) []*MCtor {
 			}
 			return true
 		}
+		if m.MissingShallow(Consumer{Scope: n.Origin, Fn: n.Fn}, n.LP) {
+			// dig's shallow check fails before any parameter is resolved:
+			// resolution does not go through this constructor
+			done[n] = true
+			return false
+		}
 		on[n] = true
 		stack = append(stack, n)
 		r := params(Consumer{Scope: n.Origin, Fn: n.Fn}, n.LP)
